@@ -10,6 +10,7 @@
   `a + b` frames = rendering `a` then `b`, the per-frame state advance every kira sound and effect has).
 -/
 import KiraModel.Proofs.SimLemmas
+import KiraModel.Props.C11_real
 
 set_option linter.unusedSectionVars false
 
@@ -115,25 +116,8 @@ theorem C11_render_partition_invariant_on {IS IS2 : S → Prop} {IE IE2 : E → 
     (Renderer.runCallbacks C V ch (Renderer.resize k (Renderer.mapComps fs fe r)) cbs2).2
         = (Renderer.runCallbacks C V ch r cbs1).2
       ∧ (Renderer.runCallbacks C V ch (Renderer.resize k (Renderer.mapComps fs fe r)) cbs2).1
-          = Renderer.resize k (Renderer.mapComps fs fe (Renderer.runCallbacks C V ch r cbs1).1) := by
-  have hq2 : (Renderer.resize k (Renderer.mapComps fs fe r)).QuietOn IS2 IE2 IX k r.dt :=
-    ⟨Renderer.resize_quiet k _ (Renderer.mapComps_quiet fs fe r hq.quiet),
-      Mixer.resize_compsOk k _ (Mixer.mapComps_compsOk fs fe hfs hfe r.mixer hq.comps), hq.env, Nat.le_refl _, rfl⟩
-  have hibs' : (Renderer.resize k (Renderer.mapComps fs fe r)).ibs = k := rfl
-  -- both runs are chunk loops; both chunk lists reduce to single-frame chunks
-  rw [(Renderer.runCallbacks_spec_clean C V hC ch cbs1 r hq.quiet.1).1,
-    (Renderer.runCallbacks_spec_clean C V hC ch cbs2 _ hq2.quiet.1).1, hibs']
-  rw [Renderer.specChunks_ones_on C V hC hH hV ch _ r hq (callbackChunks_bound r.ibs hibs cbs1),
-    Renderer.specChunks_ones_on C V hC hH2 hV ch _ _ hq2 (by rw [hibs']; exact callbackChunks_bound k hk cbs2),
-    callbackChunks_sum r.ibs hibs, callbackChunks_sum k hk, hsum]
-  -- the same single-frame chunks on the two capacities, then on the mapped components
-  rw [Renderer.specChunks_resize C V hC k ch _ (Renderer.mapComps fs fe r)
-    ⟨hq.quiet.1.1, Mixer.mapComps_clean fs fe r.ibs r.mixer hq.quiet.1.2⟩
-    (fun n hn => by rw [List.eq_of_mem_replicate hn]; exact ⟨hibs, hk⟩)]
-  obtain ⟨h1, _⟩ := Renderer.specChunks_mapComps C C V fs fe hC ch (List.replicate cbs2.sum 1) r hsim hq.comps
-    (fun n hn => by rw [List.eq_of_mem_replicate hn])
-  rw [h1]
-  exact ⟨rfl, rfl⟩
+          = Renderer.resize k (Renderer.mapComps fs fe (Renderer.runCallbacks C V ch r cbs1).1) :=
+  Renderer.runCallbacks_partition_on C V hC hV r hibs k hk hH hq fs fe hH2 hfs hfe hsim ch cbs1 cbs2 hsum
 
 /-- **Partition and buffer-size invariance of the rendered audio.**  Take a quiet renderer `r` (internal
     buffer size `r.ibs ≥ 1`) and the same renderer built with any other internal buffer size `k ≥ 1`
